@@ -769,13 +769,14 @@ theorem approxFvsTrees_correct (g : Graph) (hs : g.simpleB = true) (hp : g.posit
 
 theorem approxIsoTrees_correct (g : Graph) (hs : g.simpleB = true) (hp : g.positiveB = true) (k : Nat) (hk : 1 ≤ k)
     (scan : List Nat) (hscan : scanOkB g scan = true) (order : List Nat) (ho : order.Perm (List.range g.n))
+    (picks : List Nat) (hpicks : ∀ x, x < g.n → x ∈ picks)
     (sorter : List Cand → List Cand) (hsort : SortOK sorter) (pickD : Nat → Pick) (hpickD : ∀ e, PickOK (pickD e)) :
-    ApproxCorrect g k order (approxIsoTrees g k scan order sorter pickD) := by
+    ApproxCorrect g k order (approxIsoTrees g k scan order picks sorter pickD) := by
   obtain ⟨hnd, hm⟩ := C06.retained_facts g k scan hscan
   have hss := ApproxAlgoL.sp_simple g hs _ hnd hm
   have hsp := ApproxAlgoL.sp_positive g hp _ hm
   exact approxCore_correct g hs hp k hk scan hscan order ho _ order
-    (mcbIsoTrees_correct _ hss hsp order ho sorter hsort) pickD hpickD
+    (mcbFvsTrees_correct _ hss hsp order ho picks hpicks sorter hsort) pickD hpickD
 
 theorem approxSignedTbb_correct (g : Graph) (hs : g.simpleB = true) (hp : g.positiveB = true) (k : Nat) (hk : 1 ≤ k)
     (scan : List Nat) (hscan : scanOkB g scan = true) (order : List Nat) (ho : order.Perm (List.range g.n))
